@@ -668,7 +668,7 @@ func init() {
 			return l
 		},
 		Floors: func(string) map[string]int64 {
-			return map[string]int64{"repeat_checks": 500, "seed_checks": 1000, "engine_runs": 60, "noise_checks": 60, "concurrent_checks": 15, "binary_checks": 15, "api_sessions": 80, "api_state_checks": 2000, "api_analyses": 200, "api_move_during_analysis": 30, "api_takebacks": 50, "api_reset_to_live_fen": 15, "api_user_forks": 50, "manygames_checks": 60, "manygames_resets": 20000}
+			return map[string]int64{"repeat_checks": 500, "seed_checks": 1000, "engine_runs": 60, "noise_checks": 60, "concurrent_checks": 15, "binary_checks": 15, "api_sessions": 80, "api_state_checks": 2000, "api_analyses": 200, "api_move_during_analysis": 30, "api_takebacks": 50, "api_reset_to_live_fen": 15, "api_user_forks": 50, "api_concurrent_moves": 50, "manygames_checks": 60, "manygames_resets": 20000}
 		},
 		Run: runC18,
 	})
